@@ -67,6 +67,7 @@ func init() {
 			add(ShutdownParams{Case: "rebalance", Checkpoint: "auto", Mitigation: true, Membership: "dynamic"}, 4)
 			add(ShutdownParams{Case: "pingfail", Checkpoint: "auto", Health: true, Membership: "static", MaxPoint: 40}, 4)
 			add(ShutdownParams{Case: "rebalance2", Checkpoint: "auto", Membership: "static", MaxPoint: 3}, 1)
+			add(ShutdownParams{Case: "notifyduringclose", Checkpoint: "auto", Membership: "dynamic", MaxPoint: 120}, 4)
 			add(ShutdownParams{Case: "idle", Checkpoint: "auto", Membership: "couchbase", MaxPoint: 1}, 1)
 			add(ShutdownParams{Case: "deliver", Checkpoint: "auto", Membership: "couchbase", MaxPoint: 60}, 4)
 			return out
@@ -80,7 +81,7 @@ func shutdownClassify(r *vrt.Result) []string {
 	// where in the lifecycle was Close() called? (BRS/ARS/BRE/ARE = Before/After Rebalance Start/End)
 	var brs, ars, bre, are int
 	var lastARS, closeT, delay int64
-	seenClose, lateBRS := false, false
+	seenClose, lateBRS, assAfterClose, veryLateBRS := false, false, false, false
 	delay = -1
 	for _, l := range r.Log {
 		var t int64
@@ -93,9 +94,14 @@ func shutdownClassify(r *vrt.Result) []string {
 			}
 		case l == "Close() called":
 			seenClose = true
+		case strings.HasPrefix(l, "handler ASS") && seenClose && brs <= are:
+			assAfterClose = true // the shutdown's own stream.Close() has finished
 		case strings.HasPrefix(l, "handler BRS"):
 			if seenClose {
 				lateBRS = true
+				if assAfterClose {
+					veryLateBRS = true
+				}
 			} else {
 				brs++
 			}
@@ -124,6 +130,9 @@ func shutdownClassify(r *vrt.Result) []string {
 		state = "strictly inside the rebalance delay window (Rebalance() has returned, the re-open timer is not due yet)"
 	case brs > are:
 		state = conc + "the re-open is due or running (AfterRebalanceEnd not yet)"
+	case veryLateBRS:
+		// by then the client has unsubscribed from membership changes: nothing may start a rebalance any more
+		state = "with a Rebalance() that started after the shutdown had already closed the stream"
 	case lateBRS:
 		state = conc + "a Rebalance() started while Close() was running"
 	}
@@ -348,6 +357,13 @@ func shutdownMain(p ShutdownParams) {
 		}
 		vrt.InjectAt("healthCheck).Start", k, doClose)
 		vrt.Sleep(7*time.Second + 6*time.Second)
+	case "notifyduringclose":
+		// a membership change is announced at every point of the shutdown itself
+		doClose()
+		vrt.InjectAt("dcp.Start", k, func() {
+			vrt.Logf("membership change announced during the shutdown")
+			e.bus().Publish(helpers.MembershipChangedBusEventName, &membership.Model{MemberNumber: 1, TotalMembers: 2})
+		})
 	case "rebalance2":
 		// two notifications inside one delay window (the second one re-arms the timer), then Close() inside
 		// the re-armed window: nothing may be re-opened after Close() has returned
